@@ -811,7 +811,47 @@ theorem C20.conversions_respect_eq (T : DTables) (a b : TSpace) (h : a.eqI b = t
         | none => simp
         | some wsh => by_cases hws : wsh = sh <;> simp_all)
 
-/-- non-vacuity: two descriptors of `rn(3, weighting=2.0, exponent=1)` that differ in the sign
-of a zero-free constant's representation are equal, and so are their float32 versions -/
+/-- non-vacuity: the hypothesis holds for `rn(3, weighting=2.0, exponent=1)` (and, for
+descriptors written differently, see the `-0.0` / `0.0` example after
+`C20.discr_astype_respects_eq`) -/
 example : (⟨[3], .float64, .const .np (.fin 2) (.fin 1)⟩ : TSpace).eqI
     ⟨[3], .float64, .const .np (.fin 2) (.fin 1)⟩ = true := by decide
+
+/-- The same for discretized spaces: equal `DiscretizedSpace`s (equal partitions up to the
+sign of zeros, equal tensor spaces) have equal `astype(dt)` results or both raise, and
+`astype` never changes the partition — for any number of axes and grid points. -/
+theorem C20.discr_astype_respects_eq (T : DTables) (a b : Discr) (h : a.eqI b = true)
+    (dt : DType) (ok : Bool) :
+    (match a.astype T dt ok, b.astype T dt ok with
+     | some r, some r' => r.eqI r' = true ∧ r.axes = a.axes ∧ r'.axes = b.axes
+     | none, none => True
+     | _, _ => False) := by
+  have hk := (Discr.eqI_iff a b).1 h
+  simp only [Discr.key, Prod.mk.injEq] at hk
+  obtain ⟨hs, hd, hw, hp⟩ := hk
+  have ht : a.tspace.eqI b.tspace = true := by
+    rw [TSpace.eqI_iff]; simp [TSpace.key, Discr.tspace, hs, hd, hw]
+  have hc := (C20.conversions_respect_eq T a.tspace b.tspace ht dt ok (.int 0) 0 0).1
+  simp only [Discr.astype]
+  cases ha : a.tspace.astype T dt ok with
+  | none =>
+    cases hb : b.tspace.astype T dt ok with
+    | none => simp
+    | some r' => simp [ha, hb] at hc
+  | some r =>
+    cases hb : b.tspace.astype T dt ok with
+    | none => simp [ha, hb] at hc
+    | some r' =>
+      simp only [ha, hb] at hc
+      have hrk := (TSpace.eqI_iff r r').1 hc
+      simp only [TSpace.key, Prod.mk.injEq] at hrk
+      refine ⟨?_, rfl, rfl⟩
+      rw [Discr.eqI_iff]
+      simp [Discr.key, Discr.shape, Discr.part, hrk.2.1, hrk.2.2] 
+      have hs' : a.axes.map (fun x => x.pts.length) = b.axes.map (fun x => x.pts.length) := hs
+      exact ⟨hs', hp⟩
+
+example : (⟨[⟨.negZero, .fin 1, [.fin (1/4), .fin (3/4)]⟩], .float64,
+      .const .np (.fin (1/2)) (.fin 2), []⟩ : Discr).eqI
+    ⟨[⟨.fin 0, .fin 1, [.fin (1/4), .fin (3/4)]⟩], .float64,
+      .const .np (.fin (1/2)) (.fin 2), ["x"]⟩ = true := by decide +kernel
